@@ -615,6 +615,99 @@ func (w *World) run(op *Op) (interface{}, error) {
 			cs = tensor.CSCFromCoord(tensor.Shape{r, c}, xs, ys, mkBacking(op.S, n, int(op.F)))
 		}
 		return cs.Dense(), nil
+	case "SharedCS":
+		// like CSRDense, but the sparse matrix itself is kept (w.sparse) for SparseRead
+		r, c, n := op.I[0], op.I[1], op.I[2]
+		xs := w.arg("coords", op.I[3:3+n])
+		ys := w.arg("coords", op.I[3+n:3+2*n])
+		if op.N&1 == 0 {
+			w.sparse = append(w.sparse, tensor.CSRFromCoord(tensor.Shape{r, c}, xs, ys, mkBacking(op.S, n, int(op.F))))
+		} else {
+			w.sparse = append(w.sparse, tensor.CSCFromCoord(tensor.Shape{r, c}, xs, ys, mkBacking(op.S, n, int(op.F))))
+		}
+		return nil, nil
+	case "NewCS":
+		// NewCSR / NewCSC from index lists (the matrix's own storage, like a backing slice) and a shape that is
+		// the caller's list: I = rows, cols, then one column-set bit mask per row (CSC: row set per column)
+		rows, cols := op.I[0], op.I[1]
+		major, minor := rows, cols
+		if op.N&1 == 1 {
+			major, minor = cols, rows
+		}
+		indptr := []int{0}
+		var indices []int
+		for m := 0; m < major; m++ {
+			for b := 0; b < minor; b++ {
+				if op.I[2+m]>>uint(b)&1 == 1 {
+					indices = append(indices, b)
+				}
+			}
+			indptr = append(indptr, len(indices))
+		}
+		shape := w.arg("shape", []int{rows, cols})
+		var cs *tensor.CS
+		if op.N&1 == 0 {
+			cs = tensor.NewCSR(indices, indptr, mkBacking(op.S, len(indices), int(op.F)), tensor.WithShape(shape...))
+		} else {
+			cs = tensor.NewCSC(indices, indptr, mkBacking(op.S, len(indices), int(op.F)), tensor.WithShape(shape...))
+		}
+		w.sparse = append(w.sparse, cs)
+		return nil, nil
+	case "SparseT":
+		// the sparse matrix is the destination: T or UT
+		if len(w.sparse) == 0 {
+			return nil, fmt.Errorf("no sparse matrix in this world")
+		}
+		cs := w.sparse[op.I[0]%len(w.sparse)]
+		if op.I[1]%2 == 0 {
+			return nil, cs.T()
+		}
+		cs.UT()
+		return nil, nil
+	case "SparseRead":
+		// reads of a sparse matrix that other clients read too: I[0] picks the matrix, I[1] the way of reading
+		if len(w.sparse) == 0 {
+			return nil, fmt.Errorf("no sparse matrix in this world")
+		}
+		cs := w.sparse[op.I[0]%len(w.sparse)]
+		rows, cols := cs.Shape()[0], cs.Shape()[1]
+		if rows < 0 || cols < 0 || rows > 64 || cols > 64 {
+			// no program builds such a matrix: its shape was changed behind its back (reading it would
+			// allocate without bound); the outcome names the shape, so the two worlds differ
+			return nil, fmt.Errorf("sparse matrix claims the shape %v", cs.Shape())
+		}
+		switch op.I[1] % 5 {
+		case 0, 1: // every element through At, columns ascending or descending
+			vals := make([]float64, 0, rows*cols)
+			for i := 0; i < rows; i++ {
+				for j := 0; j < cols; j++ {
+					jj := j
+					if op.I[1]%5 == 1 {
+						jj = cols - 1 - j
+					}
+					v, err := cs.At(i, jj)
+					if err != nil {
+						return nil, err
+					}
+					vals = append(vals, reflect.ValueOf(v).Convert(reflect.TypeOf(float64(0))).Float())
+				}
+			}
+			return tensor.New(tensor.WithShape(rows, cols), tensor.WithBacking(vals)), nil
+		case 2: // the storage positions its iterator yields
+			var idx []int
+			it := cs.Iterator()
+			for i, err := it.Next(); err == nil; i, err = it.Next() {
+				idx = append(idx, i)
+				if len(idx) > rows*cols+1 {
+					return nil, fmt.Errorf("sparse iterator yields more positions than the matrix has elements")
+				}
+			}
+			return tensor.New(tensor.WithShape(len(idx)), tensor.WithBacking(idx)), nil
+		case 3:
+			return cs.Dense(), nil
+		default:
+			return cs.Clone().(*tensor.CS).Dense(), nil
+		}
 	case "DenseDiag":
 		return tensor.New(tensor.AsDenseDiag(mkBacking(op.S, op.N, int(op.F)))), nil
 	case "MaskFromDense":
